@@ -407,7 +407,27 @@ def measure_facts06():
     ok, why = compile_real(app)
     f['dataTypeDefined'] = ('Money_amount' + const.TYPE_SUFFIX in names) and ok
     f['_data_observed'] = {'simple_types': names, 'schema_compiles': ok, 'error': None if ok else why}
+    # behaviour switch bareRootIsSubName: f() -> Integer, _body_style='bare', XmlDocument
+    u = bare_prim_witness_universe()
+    with warnings.catch_warnings():
+        warnings.simplefilter('ignore')
+        b = build_classes(u)
+        app0, _ = xb.make_app(b, 'xml', None)
+        xb.finish_built(b, app0)
+        app, server = _make_app(b, 'xml', 'lxml', False)
+    b.ret['f'] = 5
+    r = xb.run_request(b, server, xb.to_bytes(xb.mk_node(u['tns'], 'f')))
+    root = body_el('xml', r.out) if r.out else None
+    f['bareRootIsSubName'] = root is not None and root.tag == '{%s}fResponse' % u['tns']
+    f['_bare_observed'] = {'response': (r.out or b'').decode('utf-8', 'replace'), 'fault': r.fault, 'crash': r.crash}
     return f
+
+
+def bare_prim_witness_universe():
+    """f() -> Integer with _body_style='bare': the response element the schema declares is <tns:fResponse>"""
+    occ = {'nillable': True, 'min': 0, 'max': 1}
+    return {'tns': 'urn:w9', 'idx': 6997, 'classes': [],
+            'methods': [{'name': 'f', 'args': [], 'rets': [{'k': 'prim', 'p': _prim('int'), 'o': occ}], 'style': 'bare'}]}
 
 
 def etree_local_name(e):
@@ -504,13 +524,14 @@ def facts06 : Facts06 where
   mergeBounds := %s
   choiceInPlace := %s
   dataTypeDefined := %s
+  bareRootIsSubName := %s
 
 end SpyneModel.Generated
 ''' % tuple([_lean_str(f[k]) for k in ('typeSuffix', 'arrayPrefix', 'arraySuffix', 'parentSuffix')] +
             [_lean_str(ints[k]) for k in ('unbounded', 'i8', 'i16', 'i32', 'i64', 'u8', 'u16', 'u32', 'u64')] +
             [_lean_str(f[k]) for k in ('boolName', 'unicodeName', 'dateName', 'timeName', 'dateTimeName', 'durationName')] +
             [_lean_str(f['bytesName'][k]) for k in ('base64', 'hex', 'urlsafe')] +
-            [str(bool(f[k])).lower() for k in ('qualified', 'clampFacets', 'mergeBounds', 'choiceInPlace', 'dataTypeDefined')])
+            [str(bool(f[k])).lower() for k in ('qualified', 'clampFacets', 'mergeBounds', 'choiceInPlace', 'dataTypeDefined', 'bareRootIsSubName')])
 
 
 # ====================================================================================== emitting documents with the real code
@@ -1535,9 +1556,22 @@ def bare_universe(rng, idx):
     rng.shuffle(usable)
     if u['classes'][-1]['name'].startswith('B'):
         usable = [u['classes'][-1]['name']] + [n for n in usable if n != u['classes'][-1]['name']]
+    def ret():
+        r = rng.random()
+        if r < 0.35:
+            return [{'k': 'ref', 'cls': rng.choice(usable), 'o': occ()}]
+        if r < 0.75:      # an uncustomised primitive: the response element is typed by the XSD built-in itself
+            p = xb.gen_prim(rng, facets=False)
+            while p['t'] in ('bytes', 'enum'):      # a ByteArray with an encoding / an Enum is a customised class, not a built-in
+                p = xb.gen_prim(rng, facets=False)
+            return [{'k': 'prim', 'p': p, 'o': occ()}]
+        return []
     for i, cname in enumerate(usable[:rng.randint(1, 2)]):
-        rets = [{'k': 'ref', 'cls': rng.choice(usable), 'o': occ()}] if rng.random() < 0.5 else []
-        u['methods'].append({'name': 'x%d' % i, 'args': [['a0', {'k': 'ref', 'cls': cname, 'o': occ()}]], 'rets': rets, 'style': 'bare'})
+        u['methods'].append({'name': 'x%d' % i, 'args': [['a0', {'k': 'ref', 'cls': cname, 'o': occ()}]], 'rets': ret(), 'style': 'bare'})
+    for i in range(rng.randint(1, 2)):
+        rets = ret() or [{'k': 'prim', 'p': _prim('int'), 'o': occ()}]
+        u['methods'].append({'name': 'y%d' % i, 'args': [['a%d' % j, xb.gen_tyref(rng, u, 1, 'arg')] for j in range(rng.randint(0, 2))],
+                             'rets': rets, 'style': 'out_bare'})
     return u
 
 
@@ -1545,13 +1579,16 @@ def methods_table(app):
     """the request / response elements `add_missing_elements_for_methods` declares, and the classes whose registered
     object is a message copy (`sub_name` set): input of `Schema.withMethods`"""
     from spyne.model.complex import ComplexModelBase
-    elems, noelem = [], []
+    elems, noelem, prims = [], [], []
     for key, descs in sorted(app.interface.service_method_map.items()):
         for msg in (descs[0].in_message, descs[0].out_message):
             if msg is None:
                 continue
             if not issubclass(msg, ComplexModelBase):
-                raise Unmodelled('a method message that is not a class')
+                if not msg.is_default(msg) or msg.get_namespace() != XS:
+                    raise Unmodelled('a method message that is a customised primitive')
+                prims.append([msg.Attributes.sub_name or msg.get_type_name(), msg.get_type_name()])
+                continue
             elems.append([msg.Attributes.sub_name or msg.get_type_name(), msg.get_namespace(), msg.get_type_name()])
     # the documents are built from every class object among interface.deps (keys and values): a class has an element of
     # its own name iff some object of it without `sub_name` is among them (a bare method registers a copy that has one)
@@ -1566,7 +1603,7 @@ def methods_table(app):
             if cls.Attributes.sub_name is None:
                 own.add(k)
     noelem = [list(k) for k in sorted(any_ - own)]
-    return {'elems': elems, 'noElem': noelem}
+    return {'elems': elems, 'noElem': noelem, 'prims': prims}
 
 
 # ====================================================================================== gallery: hand-built declarations
@@ -1698,6 +1735,24 @@ def gallery_cases():
             __namespace__ = 'urn:ga'
             _type_info = [('d', Decimal)]
         return Sci, Sci(d=[D('1E+2'), D('2.8E+10'), D('0E-7')][i % 3])
+
+    @case('integer-bounds', n=20)
+    def _(i):
+        # schema accepts => decoder accepts: both ends of every bounded integer type, the neighbours, and the shortest value
+        # with the full digit count (the length guard `max_str_len` of the parse step must leave room for the sign)
+        from spyne.model.primitive import (Integer8, Integer16, Integer32, Integer64, UnsignedInteger8, UnsignedInteger16,
+                                           UnsignedInteger32, UnsignedInteger64)
+        kinds = [Integer8, Integer16, Integer32, Integer64, UnsignedInteger8, UnsignedInteger16, UnsignedInteger32, UnsignedInteger64]
+        picks = [lambda lo, hi: lo, lambda lo, hi: lo + 1, lambda lo, hi: -(10 ** (len(str(hi)) - 1)) if lo < 0 else 10 ** (len(str(hi)) - 1),
+                 lambda lo, hi: hi, lambda lo, hi: hi - 1]
+        pick = picks[i % 5]
+        ks = kinds[(i // 5) * 2:(i // 5) * 2 + 2]
+
+        class IB(ComplexModel):
+            __namespace__ = 'urn:ga'
+            _type_info = [('v%d' % j, k) for j, k in enumerate(ks)] + [('a', XmlAttribute(ks[0])), ('l', ks[1](max_occurs=3))]
+        vals = [pick(k.Attributes.min_bound, k.Attributes.max_bound) for k in ks]
+        return IB, IB(v0=vals[0], v1=vals[1], a=vals[0], l=[vals[1], vals[1]])
 
     @case('uuid-anyuri', n=2, bad=[('u', 'zz'), ('u', '00000000-0000-0000-0000-00000000000g')])
     def _(i):
@@ -1926,6 +1981,13 @@ def run(ctx):
                     {'kind': 'emit', 'x': True, 'universe': choice_witness_universe(), 'proto': 'xml', 'polymorphic': False,
                      'method': 'm0', 'rets': [],
                      'args': [{'o': ['W', [['one', {'i': '1'}], ['two', None], ['punk', {'s': [120]}]]]}]})
+    if not f6['bareRootIsSubName']:
+        ctx.hit('fact-bad:bareRootIsSubName')
+        ctx.finding('emitted-invalid:bare-response-root-element',
+                    'f() -> Integer with _body_style=\'bare\' under XmlDocument: the schema declares <tns:fResponse type="xs:integer"/>, '
+                    'the response is %s' % f6['_bare_observed']['response'][-200:],
+                    {'kind': 'emit-bare', 'universe': bare_prim_witness_universe(), 'proto': 'xml', 'method': 'f', 'arg': None,
+                     'ret': {'i': '5'}})
     if not f6['dataTypeDefined']:
         ctx.hit('fact-bad:dataTypeDefined')
         ctx.finding('compile:simple-type-not-defined',
@@ -2353,7 +2415,11 @@ def run(ctx):
             b = build_classes(u)
             app0, _ = xb.make_app(b, 'xml', None)
             xb.finish_built(b, app0)
-        A = dict(app_json(b, app0), methods=methods_table(app0))
+        try:
+            A = dict(app_json(b, app0), methods=methods_table(app0))
+        except Unmodelled as e:
+            ctx.hit('skip:bare-universe:%s' % e)
+            continue
         ok, vs = compile_real(app0)
         ctx.case({'universe': u['idx'], 'bare': True, 'classes': [(c['name'], c['ns'], c['base']) for c in u['classes']]}, True)
         ctx.hit('universe:bare-methods')
@@ -2375,9 +2441,10 @@ def run(ctx):
             apps = dict((proto, _make_app(b, proto, 'lxml', False)) for proto in xb.PROTOS)
         vschema = apps['xml'][0].in_protocol.validation_schema
         for m in u['methods']:
-            if m.get('style') != 'bare':
+            if m.get('style') not in ('bare', 'out_bare'):
                 continue
             mname = m['name']
+            ctx.hit('bare:%s:returns-%s' % (m['style'], (m['rets'][0]['k'] if m['rets'] else 'nothing')))
             key, in_ty, out_ty = b.methods[mname]
             docs, impls = [], []
             for ci in range(per_method + 1):
@@ -2407,6 +2474,14 @@ def run(ctx):
                         ctx.hit('emit:request-not-served:%s' % (r.fault or r.crash))
                         continue
                     resp_body = body_el(proto, r.out)
+                    want_root = '{%s}%sResponse' % (u['tns'], mname)
+                    if resp_body is not None and resp_body.tag != want_root:
+                        # theorem bare_response_root_declared / fact bareRootIsSubName, on this response
+                        ctx.finding('emitted-invalid:bare-response-root-element',
+                                    'the %s response of the %s method %s is the element %s; the schema declares %s for it' % (
+                                        proto, m['style'], mname, resp_body.tag, want_root),
+                                    dict(replay, response=(r.out or b'').decode('utf-8', 'replace')))
+                        continue
                     if resp_body is None or not vschema.validate(resp_body):
                         fid = 'emitted-invalid:response:%s' % invalid_reason(vschema, resp_body)
                         if not m['rets'] and resp_body is not None and resp_body.get(XSI_NIL_ATTR) is not None:
@@ -2426,6 +2501,11 @@ def run(ctx):
                             docs.append(seen)
                             impls.append({'lxml': bool(vschema.validate(parsed)), 'tag': tag, 'indom': doc_in_domain(b, in_ty, seen, {})})
                             ctx.hit('doc-bare:%s' % tag.split(':')[0].split('+')[0])
+                        if m['rets'] and m['rets'][0]['k'] == 'prim':
+                            # T2: the response element typed by a built-in, against the reference validator
+                            rn = xb.node_of(resp_body)
+                            docs.append(rn)
+                            impls.append({'lxml': True, 'tag': 'response', 'indom': doc_in_domain(b, out_ty, rn, {})})
             if docs:
                 ask(dict(op='valid', docs=docs, **A), impls, 'validM', {'universe': u, 'method': mname, 'docs': docs})
     # ---------------------------------------------------------------- gallery of hand-built declarations (T3)
@@ -2467,6 +2547,8 @@ def run(ctx):
                 ctx.disagree('wf-implies-documents', {'universe': case['universe']}, True,
                              [mod['set']['prefixesOk'], mod['set']['importsHaveDocs']])
             ctx.hit('universe-wf:%s' % mod['wf'])
+            if f6['bareRootIsSubName'] and any(not r[1] for r in mod.get('roots', [])):
+                ctx.disagree('bare-root-declared', {'universe': case['universe']}, True, mod['roots'])
             if mod['wf'] and mod['methodsOk'] and not (ok and mod['compiles'] and mod['resolvesOk']):
                 # theorems gen_compiles / closed_of_wf evaluated on this universe
                 ctx.disagree('wf-implies-compiles', {'universe': case['universe']}, ok, [mod['compiles'], mod['resolvesOk']])
